@@ -283,6 +283,11 @@ func RunC01(e *core.Env) int {
 // runBroadBatches generates n scenarios of a profile in batches, runs the tool with static
 // monitors and calls judge on each case.
 func runBroadBatches(e *core.Env, rep *core.Report, profile string, n, batchSize int, judge func(c *CaseResult)) {
+	runBroadBatchesVia(e, rep, profile, n, batchSize, nil, judge)
+}
+
+// runBroadBatchesVia lets the caller choose, per scenario index, how the tool reaches the input (CaseResult.Via).
+func runBroadBatchesVia(e *core.Env, rep *core.Report, profile string, n, batchSize int, via func(i int) string, judge func(c *CaseResult)) {
 	for start, bi := 0, 0; start < n; start, bi = start+batchSize, bi+1 {
 		end := start + batchSize
 		if end > n {
@@ -297,6 +302,11 @@ func runBroadBatches(e *core.Env, rep *core.Report, profile string, n, batchSize
 		if err != nil {
 			rep.Inconclusive("batch setup: " + err.Error())
 			continue
+		}
+		if via != nil {
+			for k, c := range b.Cases {
+				c.Via = via(start + k)
+			}
 		}
 		b.RunTool(e, true)
 		for _, c := range b.Cases {
